@@ -743,6 +743,25 @@ func runC03(p *core.Program, r *core.Report) {
 		fn := moveDown
 		fname := p.FuncName(fn)
 		nP, iP := ssa.Value(fn.Params[1]), ssa.Value(fn.Params[2])
+		// the node index: the parameter i (the sift continues by a recursive call) or,
+		// when the sift is written as a loop, the loop variable that starts at i
+		var iterPhi *ssa.Phi
+		for _, call := range callsTo(fn, left) {
+			if ph, ok := call.Common().Args[1].(*ssa.Phi); ok {
+				n := 0
+				for _, e := range ph.Edges {
+					if e == iP {
+						n++
+					}
+				}
+				if n == 1 && len(path.NaturalLoop(ph.Block())) > 0 {
+					iterPhi = ph
+				}
+			}
+		}
+		if iterPhi != nil {
+			iP = iterPhi
+		}
 		var lv, rv ssa.Value
 		for _, call := range callsTo(fn, left) {
 			if call.Common().Args[1] == iP {
@@ -835,6 +854,23 @@ func runC03(p *core.Program, r *core.Report) {
 					okRec = true
 				}
 			}
+			if iterPhi != nil {
+				// loop form: every back edge carries the slot swapped with and lies behind the swap
+				okRec = true
+				back := 0
+				for k, e := range iterPhi.Edges {
+					if e == ssa.Value(fn.Params[2]) {
+						continue
+					}
+					back++
+					if e != cur || !call.Block().Dominates(iterPhi.Block().Preds[k]) {
+						okRec = false
+					}
+				}
+				if back == 0 {
+					okRec = false
+				}
+			}
 			c.ob("AG9", fname, "continues at the slot it swapped with", p.InstrPos(call), okRec, "after the swap moveDown must continue at the child's slot with the same bound n")
 		}
 	}
@@ -856,7 +892,7 @@ func runC03(p *core.Program, r *core.Report) {
 					i0, okA := a0.X.(*ssa.IndexAddr)
 					i1, okB := a1.X.(*ssa.IndexAddr)
 					if okA && okB {
-						if pc, ok := i1.Index.(*ssa.Call); ok && path.StaticCallee(pc) == parent && pc.Call.Args[1] == i0.Index {
+						if isAppOf(i1.Index, parent, i0.Index) {
 							okCmp = true
 							iv = i0.Index
 						}
@@ -866,13 +902,13 @@ func runC03(p *core.Program, r *core.Report) {
 		}
 		for _, call := range callsTo(fn, swapFn) {
 			a := call.Common().Args
-			if pc, ok := a[2].(*ssa.Call); ok && path.StaticCallee(pc) == parent && a[1] == iv && pc.Call.Args[1] == iv {
+			if a[1] == iv && isAppOf(a[2], parent, iv) {
 				okSwap = true
 			}
 		}
 		if ph, ok := iv.(*ssa.Phi); ok {
 			for _, e := range ph.Edges {
-				if pc, ok := e.(*ssa.Call); ok && path.StaticCallee(pc) == parent && pc.Call.Args[1] == iv {
+				if e != ssa.Value(fn.Params[1]) && isAppOf(e, parent, iv) {
 					okStep = true
 				}
 			}
@@ -959,4 +995,42 @@ func dominatedByALoopHeader(fn *ssa.Function, b *ssa.BasicBlock) bool {
 		}
 	}
 	return false
+}
+
+// isAppOf reports whether v always holds f(x), f one of the heap's pure index
+// helpers: v is the call f(x) itself, or v and x are loop variables merged in the
+// same block whose incoming values are related that way edge by edge (the call
+// hoisted into a local that is recomputed whenever x changes; coinductive on the
+// pair).
+func isAppOf(v ssa.Value, f *ssa.Function, x ssa.Value) bool {
+	type pair struct{ v, x ssa.Value }
+	assume := map[pair]bool{}
+	var rec func(v, x ssa.Value) bool
+	rec = func(v, x ssa.Value) bool {
+		if assume[pair{v, x}] {
+			return true
+		}
+		if c, ok := v.(*ssa.Call); ok {
+			return path.StaticCallee(c) == f && len(c.Call.Args) == 2 && c.Call.Args[1] == x
+		}
+		pv, ok := v.(*ssa.Phi)
+		if !ok {
+			return false
+		}
+		assume[pair{v, x}] = true
+		px, isPhi := x.(*ssa.Phi)
+		for k, e := range pv.Edges {
+			xe := x
+			if isPhi && px.Block() == pv.Block() {
+				xe = px.Edges[k]
+			} else if isPhi {
+				return false
+			}
+			if !rec(e, xe) {
+				return false
+			}
+		}
+		return true
+	}
+	return rec(v, x)
 }
